@@ -361,6 +361,12 @@ func cmdCrashCheck(args []string) error {
 				}
 				rows.Close()
 			}
+			// a pending expiration need not be readable through the API (GetExpiry does not show a tombstone's): count the rows
+			// (not in the overdue cases, where an expiration is meant to run between the re-open and this look)
+			var nexp int
+			if !*late && db.QueryRow("SELECT COUNT(*) FROM documents WHERE exp > 0").Scan(&nexp) == nil && nexp > 0 {
+				line["anyexp"] = true
+			}
 			db.Close()
 		}
 		line["marks"] = marks
